@@ -64,6 +64,20 @@ def lit(v):
 
 
 def fold_bin(op, a, b):
+    if op == "Or":
+        if a == ("bool", True) or b == ("bool", True):
+            return ("bool", True)
+        if a == ("bool", False):
+            return b
+        if b == ("bool", False):
+            return a
+    if op == "And":
+        if a == ("bool", False) or b == ("bool", False):
+            return ("bool", False)
+        if a == ("bool", True):
+            return b
+        if b == ("bool", True):
+            return a
     if a[0] == "lit" and b[0] == "lit" and isinstance(a[1], int) and isinstance(b[1], int):
         x, y = a[1], b[1]
         try:
@@ -235,6 +249,8 @@ class Interp:
                 else:
                     self.bind(p, ("tfield", v, i), env)
         elif k == "tuplestruct":
+            if v[0] == "if" and v[2][0] == "some" and v[3][0] == "none" and pat.get("def", "").endswith("Some"):
+                v = v[2]
             for i, p in enumerate(pat["ps"]):
                 if v[0] == "some" and pat.get("def", "").endswith("Some"):
                     self.bind(p, v[1], env)
@@ -243,8 +259,13 @@ class Interp:
                 else:
                     self.bind(p, ("payload", v, pat.get("def", "?").split("::")[-1], i), env)
         elif k == "struct":
+            if v[0] == "if" and v[2][0] == "some" and v[3][0] == "none" and pat.get("def", "").endswith("Some"):
+                v = v[2]
             for f in pat["fields"]:
-                self.bind(f["pat"], ("field", v, f["name"]), env)
+                if v[0] == "some" and pat.get("def", "").endswith("Some") and f["name"] == "0":
+                    self.bind(f["pat"], v[1], env)
+                else:
+                    self.bind(f["pat"], ("field", v, f["name"]), env)
         elif k in ("expr", "range", "or", "slice"):
             pass
         else:
@@ -372,7 +393,7 @@ class Interp:
                 cur = env.get(l["id"], ("var", l["id"]))
                 if cur[0] == "buf":
                     raise Unanalysable("compound assignment to a buffer")
-                env[l["id"]] = fold_bin(e["op"], cur, self.ev(e["r"], env))
+                env[l["id"]] = fold_bin(e["op"].replace("Assign", ""), cur, self.ev(e["r"], env))
                 return Leaf("fall", UNIT, env)
             if self.mentions_buf(e, env):
                 raise Unanalysable("compound assignment involving a buffer")
@@ -427,6 +448,8 @@ class Interp:
                 return ("bool", True)
             if init[0] == "none" and d.endswith("Some"):
                 return ("bool", False)
+            if init[0] == "if" and init[2][0] == "some" and init[3][0] == "none" and d.endswith("Some"):
+                return init[1]
             return ("is", init, d)
         if c0["k"] == "binary" and c0["op"] == "And":
             a = self.cond_value(c0["a"], env, env_then)
@@ -453,6 +476,15 @@ class Interp:
 
     def exec_match(self, e, env):
         scrut = self.ev(e["scrut"], env)
+        if scrut[0] in ("some", "none"):
+            for a in e["arms"]:
+                pd = a["pat"]
+                while pd["k"] == "ref":
+                    pd = pd["p"]
+                d = pd.get("def", "")
+                if "guard" not in a and ((scrut[0] == "some" and d.endswith("Some")) or (scrut[0] == "none" and d.endswith("None"))):
+                    self.bind(a["pat"], scrut, env)
+                    return self.exec_expr_tree(a["body"], env)
         if scrut[0] == "ctor":
             for a in e["arms"]:
                 pd = a["pat"]
@@ -659,6 +691,8 @@ class Interp:
                     raise Unanalysable("iteration over a list part of shape %s" % h)
             return out
         app, steps = inst(segs)
+        self.loops = getattr(self, "loops", {})
+        self.loops[lid] = {"init": dict(scal), "steps": steps, "app": app, "over": segs}
         for k_, v in seqs.items():
             if app[k_]:
                 env[k_] = (v[0], v[1] + app[k_])
@@ -795,12 +829,7 @@ class Interp:
         if k == "binary":
             return fold_bin(e["op"], self.ev(e["a"], env), self.ev(e["b"], env))
         if k == "field":
-            b = self.ev(e["base"], env)
-            if b[0] == "struct" and e["name"] in b[2]:
-                return b[2][e["name"]]
-            if b[0] == "tuple" and e["name"].isdigit() and int(e["name"]) < len(b[1]):
-                return b[1][int(e["name"])]
-            return ("field", b, e["name"])
+            return self.field_of(self.ev(e["base"], env), e["name"])
         if k == "index":
             b, i = self.ev(e["base"], env), self.ev(e["idx"], env)
             if i[0] == "idx" and i[1] == b:
@@ -834,6 +863,7 @@ class Interp:
                 return ("range", fs["start"], fs["end"])
             if d.endswith("ops::RangeInclusive") or d.endswith("RangeInclusive::new"):
                 return ("rangei", fs.get("start"), fs.get("end"))
+            self.trace.append(("struct", d, fs))
             return ("struct", d, fs)
         if k == "closure":
             return ("closure", e, dict(env))
@@ -851,6 +881,15 @@ class Interp:
         if k == "other":
             return ("other", e.get("what"))
         raise Unanalysable("expression kind %s at line %s" % (k, e["sp"][0]))
+
+    def field_of(self, b, name):
+        if b[0] == "struct" and name in b[2]:
+            return b[2][name]
+        if b[0] == "tuple" and name.isdigit() and int(name) < len(b[1]):
+            return b[1][int(name)]
+        if b[0] == "if":
+            return self.if_value(b[1], self.field_of(b[2], name), self.field_of(b[3], name))
+        return ("field", b, name)
 
     def mentions_buf_mutation(self, e, env):
         if isinstance(e, dict):
@@ -905,8 +944,11 @@ class Interp:
         if name in self.hir and self.is_producer(name):
             return ("buf", self.production(name, args))
         if name in self.hir and name in self.struct_fns:
-            return self.call_value(name, args)
-        return ("call", sname, tuple(args))
+            try:
+                return self.call_value(name, args)
+            except Unanalysable:
+                pass
+        return ("call", sname, tuple(self.opaque_arg(a) for a in args))
 
     def call_value(self, path, args):
         """inline a local (non-producer) function and return its value"""
@@ -974,7 +1016,13 @@ class Interp:
             return ("buf", [("be" if m == "to_be_bytes" else "le", recv, w)])
         if m == "len":
             if recv[0] == "list":
-                return ("len", ("listval", freeze(recv[1])))
+                try:
+                    w = width(recv[1])
+                    if w.is_const():
+                        return lit(w.const)
+                except Unanalysable:
+                    pass
+                return ("len", ("listval", freeze(list_shape(recv[1]))))
             if recv[0] == "buf":
                 w = width(recv[1])
                 if w.is_const():
@@ -986,6 +1034,13 @@ class Interp:
             if m in ("iter", "into_iter", "copied", "cloned"):
                 return ("mcall", sname, recv, ())
             return recv
+        if m == "is_empty" and recv[0] == "list":
+            try:
+                w = width(recv[1])
+                if w.is_const():
+                    return ("bool", w.const == 0)
+            except Unanalysable:
+                pass
         if m == "is_empty" and recv[0] == "buf":
             w = width(recv[1])
             if w.is_const():
@@ -1001,25 +1056,51 @@ class Interp:
             return recv[1]
         if m == "unwrap_or" and recv[0] == "none":
             return args[0]
-        if m in ("map", "sum") and args and args[0][0] == "closure":
+        if m in ("map", "sum", "filter_map", "filter") and args and args[0][0] == "closure":
             return ("mcall", sname, recv, (self.closure_summary(args[0], recv),))
         if name in self.hir and self.is_producer(name):
             return ("buf", self.production(name, [recv] + args))
         if name in self.hir and name in self.struct_fns:
-            return self.call_value(name, [recv] + args)
-        return ("mcall", sname, recv, tuple(args))
+            try:
+                return self.call_value(name, [recv] + args)
+            except Unanalysable:
+                pass
+        return ("mcall", sname, recv, tuple(self.opaque_arg(a) for a in args))
+
+    def opaque_arg(self, a):
+        if a[0] == "closure":
+            ids = set()
+
+            def rec(x):
+                if isinstance(x, dict):
+                    if x.get("k") == "path" and x.get("res") == "local":
+                        ids.add(x["id"])
+                    for v in x.values():
+                        rec(v)
+                elif isinstance(x, list):
+                    for v in x:
+                        rec(v)
+            rec(a[1].get("body"))
+            caps = tuple(sorted((i.split("#")[0], freeze(a[2][i])) for i in ids if i in a[2] and a[2][i][0] not in SEQ and a[2][i][0] != "closure"))
+            return ("clo", a[1].get("def", "?"), caps)
+        return a
 
     def closure_summary(self, clo, recv):
         ce, cenv = clo[1], dict(clo[2])
         base = recv
+        enumerated = False
         while base[0] == "mcall" and base[1].split("::")[-1] in ("iter", "into_iter", "enumerate", "copied", "cloned", "map"):
+            if base[1].endswith("enumerate"):
+                enumerated = True
             base = base[2]
         self.loopn += 1
         lid = "L%d" % self.loopn
+        ev_ = ("tuple", [("idx", base, lid), ("elem", base, lid)]) if enumerated else ("elem", base, lid)
         for p in ce["params"]:
-            self.bind(p, ("elem", base, lid), cenv)
+            self.bind(p, ev_, cenv)
         try:
-            return ("lambda", lid, self.ev(ce["body"], cenv))
+            t = self.exec_expr_tree(ce["body"], cenv)
+            return ("lambda", lid, self.collapse_value(t))
         except Unanalysable:
             return ("lambda", lid, ("?",))
 
@@ -1056,7 +1137,31 @@ class Lin:
         return " + ".join(parts)
 
 
+def list_shape(segs):
+    """a list's structure with the item values removed (its length depends on nothing else)"""
+    out = []
+    for s in segs:
+        k = s[0]
+        if k == "item":
+            out.append(("item",))
+        elif k == "rep":
+            out.append(("rep", s[1], s[2], list_shape(s[3])))
+        elif k == "perm":
+            out.append(("perm", ("key",), list_shape(s[2])))
+        elif k == "alt":
+            out.append(("alt", s[1], list_shape(s[2]), list_shape(s[3])))
+        elif k == "match":
+            out.append(("match", s[1], [(p, list_shape(x)) for p, x in s[2]]))
+        elif k == "ploop":
+            out.append(("ploop", s[1], ("key",) if s[2] else None, [("part", list_shape(p[1])) if p[0] == "part" else ("rep", p[1], p[2], list_shape(p[3])) for p in s[3]]))
+        else:
+            out.append(s)
+    return out
+
+
 def freeze(x):
+    if isinstance(x, Lin):
+        return ("lin", x.const, tuple(sorted(((k, v) for k, v in x.terms.items()), key=repr)))
     if isinstance(x, list):
         return tuple(freeze(i) for i in x)
     if isinstance(x, tuple):
@@ -1089,12 +1194,12 @@ def seg_width(s):
         a, b = width(s[2]), width(s[3])
         if a == b:
             return a
-        return Lin(0, {("altw", freeze(s[1]), freeze(s[2]), freeze(s[3])): 1})
+        return Lin(0, {("altw", freeze(s[1]), freeze(a), freeze(b)): 1})
     if k == "match":
         ws = [width(x[1]) for x in s[2]]
         if all(w == ws[0] for w in ws):
             return ws[0]
-        return Lin(0, {("matchw", freeze(s[1]), freeze(s[2])): 1})
+        return Lin(0, {("matchw", freeze(s[1]), tuple((p, freeze(w)) for (p, _), w in zip(s[2], ws))): 1})
     if k == "item":
         return Lin(1)
     if k == "perm":
@@ -1112,7 +1217,7 @@ def seg_width(s):
         b = width(s[3])
         if b.is_const():
             return Lin(0, {("len", freeze(s[1])): b.const})
-        return Lin(0, {("repw", freeze(s[1]), s[2], freeze(s[3])): 1})
+        return Lin(0, {("repw", freeze(s[1]), s[2], freeze(b)): 1})
     raise Unanalysable("width of segment " + k)
 
 
@@ -1323,4 +1428,45 @@ def field_names(x):
             for z in y.values():
                 rec(z)
     rec(x)
+    return out
+
+
+def strip_ids(x):
+    """replace loop / key / binding ids by '_' so that two derivations of the same shape compare equal"""
+    if isinstance(x, str):
+        if re.fullmatch(r"[LPK]\d+", x):
+            return "_"
+        if "#" in x and re.fullmatch(r"[A-Za-z_][A-Za-z0-9_]*#\d+", x):
+            return x.split("#")[0]
+        return x
+    if isinstance(x, (list, tuple)):
+        return tuple(strip_ids(y) for y in x)
+    if isinstance(x, dict):
+        return tuple(sorted((k, strip_ids(v)) for k, v in x.items()))
+    return x
+
+
+def mask_values(segs, pred):
+    """replace the value expression of every be/le/u8 segment for which pred(expr) holds by ('masked',)"""
+    out = []
+    for s in segs:
+        k = s[0]
+        if k in ("be", "le") and pred(s[1]):
+            out.append((k, ("masked",), s[2]))
+        elif k == "u8" and pred(s[1]):
+            out.append((k, ("masked",)))
+        elif k == "box":
+            out.append(("box", s[1], mask_values(s[2], pred)))
+        elif k == "alt":
+            out.append(("alt", s[1], mask_values(s[2], pred), mask_values(s[3], pred)))
+        elif k == "match":
+            out.append(("match", s[1], [(p, mask_values(sg, pred)) for p, sg in s[2]]))
+        elif k == "rep":
+            out.append(("rep", s[1], s[2], mask_values(s[3], pred)))
+        elif k == "perm":
+            out.append(("perm", s[1], mask_values(s[2], pred)))
+        elif k == "ploop":
+            out.append(("ploop", s[1], s[2], [("rep", p[1], p[2], mask_values(p[3], pred)) if p[0] == "rep" else ("part", mask_values(p[1], pred)) for p in s[3]]))
+        else:
+            out.append(s)
     return out
